@@ -372,8 +372,10 @@ func genC13(c *lp.Ctx) {
 		for _, m := range modes {
 			cs := *base
 			cs.Flags = string(d) + m + "f"
-			if m == "tt" && c.Rng.Intn(2) == 0 {
-				cs.Flags = string(d) + "nnt"
+			if m == "tt" && c.Rng.Intn(3) != 0 {
+				// Complete spelled in every way: it overrides nil, true AND an explicit false of the two
+				// prefix options
+				cs.Flags = string(d) + []string{"nn", "ff", "fn", "nf", "tf", "ft", "fn", "nt"}[c.Rng.Intn(8)] + "t"
 			}
 			cs.Dedup, cs.Inner, cs.Leaf = normalize(cs.Flags)
 			cs.oracle()
